@@ -1062,6 +1062,7 @@ def check(r):
     # always recorded here, so call it ourselves when something broke and nothing concrete is known
     if r.breaks and nreal == 0:
         r.log("something broke: running the falsifier on the implementation ...")
+        r.falsified = True
         falsify(r, seen)
 
 
